@@ -127,6 +127,10 @@ def main():
         if os.path.exists(pp):
             refs.append((r, pp, set(_touched(pp))))
     jobs = [(s, sp, owner, r, rp) for s, sp, owner, st in seeds for r, rp, rt in refs if st & rt]
+    only = os.environ.get("SA_CROSS_ONLY")          # development aid: only pairs in which the change or the refactoring has one of these id suffixes, e.g. "-19,-20"
+    if only:
+        suf = tuple(only.split(","))
+        jobs = [j for j in jobs if j[0].endswith(suf) or j[3].endswith(suf)]
     print(f"{len(jobs)} pairs share a file", flush=True)
     res = {}
     miss = []
